@@ -313,13 +313,16 @@ def main():
     t0 = time.time()
     versions = tool_versions()
     sel = [j for j in JOBS.all_jobs() if prop in j['props'] and (not a.only or j['id'] in a.only)]
+    if tier == 'thorough':
+        # thorough: nothing is taken from the result cache, and bounded jobs run with the larger bounds they declare
+        sel = [dict(j, **j['thorough']) if j.get('thorough') else j for j in sel]
     if tier == 'quick':
         sel = [j for j in sel if not j.get('thorough_only')]
     if not sel:
         print('INCONCLUSIVE property=%s no job carries obligations of this property' % prop)
         sys.exit(2)
     work = tempfile.mkdtemp(prefix='verif_%s_' % prop, dir=os.environ.get('TMPDIR', '/tmp'))
-    cache_dir = None if os.environ.get('VERIF_NOCACHE') else os.path.join(VERIF, '.cache')
+    cache_dir = None if (os.environ.get('VERIF_NOCACHE') or tier == 'thorough') else os.path.join(VERIF, '.cache')
     results = []
     try:
         # heavy jobs first
